@@ -65,7 +65,7 @@ func init() {
 		Runs: []RunDef{c02("H_for_nested"), c02("H_while_nested"), c02("H_foreach"), c02("H_switch_in_for"), c02("H_func_defaults"), c02("H_static_counter"),
 			c02("H_locals_isolated"), c02("H_if_chain"), c02("H_match"), c02("H_counter_escapes"), c02("H_return_from_loop"), c02("H_repeated_statements"),
 			c02("H_loop_body_exits"), {Fn: "H_static_forms", Fuel: 30_000_000, Tier: "quick", Reach: []string{"end"}}, c02("H_static_recursion"), c02("H_switch_labels"), c02("H_foreach_object_write")},
-		Rule:        rule + "; each template is parsed by the real parser on every path and run by the real evaluators with symbolic loop limits/trigger indexes in [-1,3] (unbounded ints where no loop depends on them); exit statement kind and level are enumerated by solver-driven case split; the oracle is the same algorithm in Go executed in the same path; H_loop_body_exits puts break/continue under an if in the middle of the body of every loop kind; H_static_forms: 6 update forms x 3 ways of leaving the function x 3 placements of the static declaration; H_static_recursion: frames of a recursive function share the static",
+		Rule:        rule + "; each template is parsed by the real parser on every path and run by the real evaluators with symbolic loop limits/trigger indexes in [-1,3] (unbounded ints where no loop depends on them); exit statement kind and level are enumerated by solver-driven case split; the oracle is the same algorithm in Go executed in the same path; H_loop_body_exits puts break/continue under an if in the middle of the body of every loop kind; H_static_forms: 6 update forms x 3 ways of leaving the function x 3 placements of the static declaration; H_static_recursion: frames of a recursive function share the static; H_switch_labels: duplicate / expression labels and default in every position; H_foreach_object_write: a foreach over an object whose body writes that object terminates and enumerates the entries present at its start",
 		Assumptions: []string{"switch fall-through into the next case and a bare 'continue' directly inside switch are not asserted (docs are silent / PHP-specific)"},
 		Outside:     []string{"programs outside the 16 templates (H_switch_labels: three cases with labels drawn from {1,2,3} with repetition, default clause in every position, literal and expression labels, symbolic subject)", "loop counts > 3, nesting depth > 2", "generators, goto, strings in conditions"},
 	})
@@ -98,7 +98,7 @@ func init() {
 			{Fn: "H_messages", Tier: "quick", Reach: []string{"end"}},
 			{Fn: "H_abnormal", Fuel: 30_000_000, Tier: "quick", Reach: []string{"end"}},
 		},
-		Rule:        rule + "; try/catch/finally template inside a loop inside a function with selectors for how the try body (5), the handler (5) and finally (2) exit and which class is thrown (5, incl. a Go-level error), all 250 combinations by solver-driven case split; marker trace and return value compared with the 40-line reference model of B.3; H_catch_order: every thrown class x every ordered pair of catch clause types (first match in source order); H_same_object: the caught object is the thrown one; H_rethrow: every thrown class x every inner clause type, the caught object thrown again is matched by the enclosing try by its original class and keeps its message",
+		Rule:        rule + "; try/catch/finally template inside a loop inside a function with selectors for how the try body (5), the handler (5) and finally (2) exit and which class is thrown (5, incl. a Go-level error), all 250 combinations by solver-driven case split; marker trace and return value compared with the 40-line reference model of B.3; H_catch_order: every thrown class x every ordered pair of catch clause types (first match in source order); H_same_object: the caught object is the thrown one; H_rethrow: every thrown class x every inner clause type, the caught object thrown again is matched by the enclosing try by its original class and keeps its message; H_catch_order: 5 thrown classes x ordered pairs of 8 clause types incl. interfaces implemented by the class / an ancestor / two levels up, handlers with a marker or EMPTY, with finally; H_messages: each object keeps the message it was constructed with (incl. a subclass whose constructor never calls the parent's); H_abnormal: a Go-level failure inside the try body and a throw leaving an included file",
 		Assumptions: []string{"a Go-level error (1 % 0) is a Throwable that also matches catch (Exception)"},
 		Outside:     []string{"process exit status and stderr of uncaught throwables / parse errors (decided per OS process: no symbolic dimension)", "nesting depth > 2", "hierarchies beyond the 4-class fixture"},
 	})
@@ -111,7 +111,7 @@ func init() {
 			{Fn: "H_reference", Tier: "quick", Reach: []string{"end"}},
 			{Fn: "H_callee_writes", Fuel: 30_000_000, Tier: "quick", Reach: []string{"end"}},
 		},
-		Rule:        rule + "; (shape: list / string-keyed / nested / nested with an empty inner list / list with a string key added later) x (13 aliasing routes: assignment, by-value parameter, return, into/out of a property, into/out of an element by literal, append, string key and int key, getter method / function / static method returning a stored array) x (12 mutations) x (2 directions) enumerated by solver-driven case split, element values and the written value are symbolic 64-bit ints; oracle = before/after snapshot of the other name inside the same run",
+		Rule:        rule + "; (shape: list / string-keyed / nested / nested with an empty inner list / list with a string key added later) x (13 aliasing routes: assignment, by-value parameter, return, into/out of a property, into/out of an element by literal, append, string key and int key, getter method / function / static method returning a stored array) x (12 mutations) x (2 directions) enumerated by solver-driven case split, element values and the written value are symbolic 64-bit ints; oracle = before/after snapshot of the other name inside the same run; shapes incl. associative arrays nested in lists and in each other; mutations incl. a leaf of a nested associative array, a reference taken on a slot, unset; H_callee_writes: 11 ways an array reaches a callee that writes to it, the caller's array is unchanged",
 		Assumptions: []string{"sort() cells use a concrete element pool (elements are compared through their string form)"},
 		Outside:     []string{"depth-3 shapes, mixed shapes", "std/php/array builtins (only the data methods)", "closure capture (excluded by the property)"},
 	})
@@ -129,7 +129,7 @@ func init() {
 			c15s(0, 0, "quick"), c15s(0, 1, "quick"), c15s(1, 0, "quick"), c15s(1, 1, "quick"), c15s(2, 0, "quick"), c15s(2, 1, "quick"), c15s(2, 2, "quick"),
 			c15s(3, 1, "thorough"), c15s(3, 2, "thorough"), c15s(4, 1, "thorough"), c15s(4, 2, "thorough"),
 		},
-		Rule:        rule + "; 37 array method cases (every arity incl. omitted optionals and 1-2 variadic items; callbacks with a local variable; reduce with and without an initial value) on receivers of length 0..3 with symbolic 64-bit elements and FULL-RANGE symbolic index/count arguments (negative, zero, = length, beyond, MinInt/MaxInt inside one query), result and receiver-after-call compared with Go reference functions of the documented Node.js semantics; 11 string method cases on printable-ASCII symbolic strings; H_array_text: join() / join(sep) / sort() on receivers drawn from the pool {10, 9, 1, -1, -2, 2} (string comparison order) and flat() / flat(2) / flat(0) on doubly nested lists",
+		Rule:        rule + "; 37 array method cases (every arity incl. omitted optionals and 1-2 variadic items; callbacks with a local variable; reduce with and without an initial value) on receivers of length 0..3 with symbolic 64-bit elements and FULL-RANGE symbolic index/count arguments (negative, zero, = length, beyond, MinInt/MaxInt inside one query), result and receiver-after-call compared with Go reference functions of the documented Node.js semantics; 11 string method cases on printable-ASCII symbolic strings; H_array_text: join() / join(sep) / sort() on receivers drawn from the pool {10, 9, 1, -1, -2, 2} (string comparison order) and flat() / flat(2) / flat(0) on doubly nested lists; H_array_history: method, change of length, same method again on one array; callbacks that use their index argument",
 		Assumptions: []string{"indexOf/includes compare elements through their string form: concrete element pool {0,1,-1,7} there", "strings: printable ASCII only; substring asserted on 0 <= a <= b <= len (outside: completes without a crash)", "callbacks are function(...) use (...) closures over ordinary assigned script variables"},
 		Outside:     []string{"receivers longer than 3 (strings 4)", "sort()/join() on elements outside the concrete pool, forEach", "multi-byte strings and the unit of length", "callbacks using the array argument"},
 	})
@@ -177,7 +177,7 @@ func init() {
 			{Fn: "H_history", Params: k(3), Fuel: 20_000_000, Tier: "quick", Reach: []string{"end"}},
 			{Fn: "H_history", Params: k(4), Fuel: 30_000_000, Tier: "thorough", Reach: []string{"end"}},
 		},
-		Rule:    rule + "; every history of k steps over {instantiate Box<int|string|array|U> into one of 2 slots, write a value of kind int|string|array|U into a slot's T-typed property, pass it to a T-typed method parameter}; the script is assembled per path and parsed by the real generic-class parser; expected acceptance is computed per instance from its own type argument; H_members: Pair<K,V> with three typed members touched in every order; H_two: two instantiations alive at once; H_factory: one new-site evaluated three times (factory function / loop body), objects written in every rotation; H_pair_two: two instantiations of Pair<K,V> over {int,string,U}^2 x {int,string,U}^2 (permuted arguments included), either member of either instance probed with every value kind; H_member_forms: plain / nullable / promoted-constructor / method-parameter / nullable-parameter members of Box<A> against every value kind and null. Structural enumeration through the engine; the int payload is symbolic",
+		Rule:    rule + "; every history of k steps over {instantiate Box<int|string|array|U> into one of 2 slots, write a value of kind int|string|array|U into a slot's T-typed property, pass it to a T-typed method parameter}; the script is assembled per path and parsed by the real generic-class parser; expected acceptance is computed per instance from its own type argument; H_members: Pair<K,V> with three typed members touched in every order; H_two: two instantiations alive at once; H_factory: one new-site evaluated three times (factory function / loop body), objects written in every rotation; H_pair_two: two instantiations of Pair<K,V> over {int,string,U}^2 x {int,string,U}^2 (permuted arguments included), either member of either instance probed with every value kind; H_member_forms: plain / nullable / promoted-constructor / method-parameter / nullable-parameter members of Box<A> against every value kind and null. Structural enumeration through the engine; the int payload is symbolic; H_site_reuse: one assignment / call site executed on two instantiations; H_member_forms: plain, nullable, promoted, parameter, nullable-parameter and constructor-parameter members",
 		Outside: []string{"generic classes with more than two parameters, generic functions", "concurrent instantiation (only sequential orders)", "histories longer than 4"},
 	})
 
@@ -211,7 +211,7 @@ func init() {
 			{Fn: "H_include", Fuel: 30_000_000, Tier: "quick", Reach: []string{"end"}},
 			{Fn: "H_enum_order", Fuel: 30_000_000, Tier: "quick", Reach: []string{"end"}},
 		},
-		Rule:        rule + "; Go's map iteration order is the adversary and is made a symbolic choice: every range over a Go map with 2..3 entries executed inside origami code (up to 4 such ranges per path) takes its order from a fresh symbolic permutation, all orders are explored as sibling paths, and the output must equal the insertion-order run of the same template in the same path; OrderedMap Set/Delete histories against a slice model; all ordered pairs (A then B vs B alone) of the templates on fresh VMs in one engine process",
+		Rule:        rule + "; Go's map iteration order is the adversary and is made a symbolic choice: every range over a Go map with 2..3 entries executed inside origami code (up to 4 such ranges per path) takes its order from a fresh symbolic permutation, all orders are explored as sibling paths, and the output must equal the insertion-order run of the same template in the same path; OrderedMap Set/Delete histories against a slice model; all ordered pairs (A then B vs B alone) of the templates on fresh VMs in one engine process; H_enum_order: explicit insertion-order oracle for objects and string-keyed arrays over every order of three names; H_include: two programs including the same file",
 		Assumptions: []string{"maps with more than 3 entries and the 5th and later permutable ranges of a path iterate in insertion order"},
 		Outside:     []string{"byte-identical diagnostics / exit status across fresh OS processes", "std/php output buffers and spl registries (not loaded)", "programs outside the 17 templates (H_pairs: every ordered pair, the reference run of B is a copy with all class / interface / function names renamed, so nothing remembered per name can mask a leak; H_include: two programs including the same file under the 4 include forms, the first optionally mutating what it got)"},
 	})
@@ -235,7 +235,7 @@ func init() {
 			c09("H_close_race", nil, "thorough", 4),
 			c09("H_close_drain", nil, "thorough", 4),
 		},
-		Rule:        rule + "; goroutines of the harness and the real Channel methods run as engine threads under a baton; at every visible operation (go, chan send/recv/close/len, WaitGroup ops, accesses to Channel.closed) the scheduler decision is a recorded choice and all alternatives are explored, with preemption bounding; Go channels are modelled exactly (FIFO buffer, rendezvous with parked senders and receivers, select with nondeterministic choice among ready cases, close wakes parked senders with a panic), sync.Mutex and sync.Cond at contract level; a vector-clock happens-before relation flags unordered conflicting accesses to Channel.closed; capacity 0..2 enumerated, payloads symbolic",
+		Rule:        rule + "; goroutines of the harness and the real Channel methods run as engine threads under a baton; at every visible operation (go, chan send/recv/close/len, WaitGroup ops, accesses to Channel.closed) the scheduler decision is a recorded choice and all alternatives are explored, with preemption bounding; Go channels are modelled exactly (FIFO buffer, rendezvous with parked senders and receivers, select with nondeterministic choice among ready cases, close wakes parked senders with a panic), sync.Mutex and sync.Cond at contract level; a vector-clock happens-before relation flags unordered conflicting accesses to Channel.closed; capacity 0..2 enumerated, payloads symbolic; H_close_accounting: two senders, optional receive, close, drain while the senders return: a send reports success iff its value is received exactly once, and once a receive has reported closed-and-drained no value appears",
 		Assumptions: []string{"bounded: <= 3 goroutines besides main, <= 2 channel operations per goroutine, preemption bound 2 (1 for two producers) in the quick tier, 2-4 in the thorough tier", "schedule counterexamples replay deterministically in the engine; native confirmation by the directed twin N_close_parked (sender parked on an unbuffered channel, then Close)"},
 		Outside:     []string{"more than 4 goroutines / 2 operations each, capacities 3-4 (H_close_accounting: two senders, one receive, close, drain at capacities 0 and 1: a send reports success iff its value is received exactly once)", "script-level spawn closures sharing a frame", "seeded stress under the race detector (different technique family)"},
 	})
@@ -250,7 +250,7 @@ func init() {
 			{Fn: "H_two_autoload", Fuel: 60_000_000, Tier: "quick", Sched: true, Preempt: 1, Reach: []string{"end"}, NativeTwin: "N_autoload_same_file"},
 			{Fn: "H_two", Tier: "thorough", Sched: true, Preempt: 4, Reach: []string{"end"}},
 		},
-		Rule:        rule + "; two goroutines issue one call each out of {AddClass, AddFunc, AddInterface, GetClass, GetFunc, SetConstant, GetConstant, EnsureGlobalZVal} on names from a 2-name pool (all 64 x 4 combinations); the five registry maps are marked shared, so every map access and every lock operation is a schedule point and all interleavings within the preemption bound are explored; obligations: no happens-before race on a registry map (vector clocks over RWMutex edges), results equal those of one of the 2 sequential orders run on a fresh VM in the same path, a duplicate name accepted at most once; H_two_fold drives the case-insensitive lookup path (spellings a / A, with a class of the other spelling registered beforehand or not); H_two_autoload: two goroutines load classes from files (virtual file system) through GetOrLoadClass / LoadPkg, preemption bound 1",
+		Rule:        rule + "; two goroutines issue one call each out of {AddClass, AddFunc, AddInterface, GetClass, GetFunc, SetConstant, GetConstant, EnsureGlobalZVal} on names from a 2-name pool (all 64 x 4 combinations); the five registry maps are marked shared, so every map access and every lock operation is a schedule point and all interleavings within the preemption bound are explored; obligations: no happens-before race on a registry map (vector clocks over RWMutex edges), results equal those of one of the 2 sequential orders run on a fresh VM in the same path, a duplicate name accepted at most once; H_two_fold drives the case-insensitive lookup path (spellings a / A, with a class of the other spelling registered beforehand or not); H_two_autoload: two goroutines load classes from files (virtual file system) through GetOrLoadClass / LoadPkg, preemption bound 1; H_two_temp: two coroutines of one request on the shared temporary VM; sync.RWMutex is modelled with writer preference, a state in which every thread is blocked is a violation",
 		Assumptions: []string{"sync.RWMutex modelled at contract level (readers/writer counts, unlock->lock and RUnlock->Lock happens-before edges)", "bounded: 2 goroutines x 1 call, preemption bound 2 (quick) / 4 (thorough)"},
 		Outside:     []string{"10^2-10^4 calls, 3-16 goroutines, GOMAXPROCS effects (stress testing is a different technique family)", "call-depth counters, exception handler slots, spl autoload callback list; autoload under preemption bounds above 1"},
 	})
@@ -271,7 +271,7 @@ func init() {
 			{Fn: "H_two", Fuel: 30_000_000, Tier: "thorough", Sched: true, Preempt: 3, Reach: []string{"end"}, NativeTwin: "N_reentrant"},
 			{Fn: "H_two_locals", Fuel: 30_000_000, Tier: "thorough", Sched: true, Preempt: 3, Reach: []string{"end"}, NativeTwin: "N_reentrant"},
 		},
-		Rule:        rule + "; two requests with distinct parameters are served by the real Handler.ServeHTTP (beginRequest/beginResponse, per-request Context, script handler parsed by the real parser) in two engine threads; the package-level superglobal caches are marked shared so each access is a schedule point and all interleavings within the preemption bound are explored; each response body must equal what the handler yields for that request alone; handler 1 reads $_GET twice around a loop, handler 2 uses the request object, locals, a loop, an array and an object only; H_two_middleware puts a closure middleware (real newMiddleware) around the handler, with a local written before and read after $next()",
+		Rule:        rule + "; two requests with distinct parameters are served by the real Handler.ServeHTTP (beginRequest/beginResponse, per-request Context, script handler parsed by the real parser) in two engine threads; the package-level superglobal caches are marked shared so each access is a schedule point and all interleavings within the preemption bound are explored; each response body must equal what the handler yields for that request alone; handler 1 reads $_GET twice around a loop, handler 2 uses the request object, locals, a loop, an array and an object only; H_two_middleware puts a closure middleware (real newMiddleware) around the handler, with a local written before and read after $next(); H_sequential: three requests one after another through handler / middleware / onError / both; H_two_constructs, H_two_capture: handlers built from many call-site kinds and a closure writing to by-value captures; every heap cell stored to while two threads exist is checked against the happens-before relation",
 		Assumptions: []string{"requests are built directly (no sockets); the recorder is a plain http.ResponseWriter", "internal/godebug settings read as unset"},
 		Outside:     []string{"3-64 requests in flight, middleware stacks deeper than 1, sessions, $_FILES, $_POST/$_COOKIE/$_SERVER handlers", "seeded parallel load (different technique family)"},
 	})
@@ -291,7 +291,7 @@ func init() {
 			c17("H_reflect_sized", nil), c17("H_reflect_float_to_int", nil), c17("H_reflect_unsigned_result", nil), c17("H_reflect_float_result", nil),
 			c17("H_reflect_method", n(0)), c17("H_reflect_method", n(1)), c17("H_reflect_method", n(2)),
 		},
-		Rule:        rule + "; script-side payloads are full-width symbolic ints/doubles/bools and fully symbolic byte strings (incl. non-UTF-8) of the stated length; the reflective path is driven through a real parsed script call; H_reflect_sized: int8/int16/int32/uint8/uint32/uint64 parameters accept exactly the representable values of a full-range symbolic int; H_reflect_float_to_int: a symbolic double passed to an int parameter; H_reflect_method: the methods of a registered struct (ReflectClass / ReflectMethod) for int64, float64, string, bool, int8 and arity 2",
+		Rule:        rule + "; script-side payloads are full-width symbolic ints/doubles/bools and fully symbolic byte strings (incl. non-UTF-8) of the stated length; the reflective path is driven through a real parsed script call; H_reflect_sized: int8/int16/int32/uint8/uint32/uint64 parameters accept exactly the representable values of a full-range symbolic int; H_reflect_float_to_int: a symbolic double passed to an int parameter; H_reflect_method: the methods of a registered struct (ReflectClass / ReflectMethod) for int64, float64, string, bool, int8 and arity 2; H_reflect_float_result: float32 (concrete pool) and float64 (symbolic) results bit for bit",
 		Assumptions: []string{"reflect is modelled at contract level (TypeOf/ValueOf/Kind/Bits/NumIn/In/NumMethod/Method/Call with the documented assignability panic/Convert/Int/Uint/Float/String/Bool/IsZero/New/Interface)", "runtime.Caller returns a fixed location"},
 		Outside:     []string{"struct fields set through the reflective constructor (FieldByName/Set*), float32 parameters with symbolic values", "arity 3, 64 KiB strings, std/system generated wrappers (all funnel through ConvertFromIndex)"},
 	})
